@@ -346,7 +346,17 @@ pub mod arena {
 
     data_arena!(TY_ARENA, TY_NEXT, ty, TyData<VI>, 64);
     data_arena!(CONST_ARENA, CONST_NEXT, konst, ConstData<VI>, 24);
-    data_arena!(LT_ARENA, LT_NEXT, lifetime, LifetimeData<VI>, 48);
+    data_arena!(LT_ARENA, LT_NEXT, lifetime_raw, LifetimeData<VI>, 56);
+    /// Slot 0 of the lifetime arena always holds a data-carrying variant: when the first lifetime
+    /// written to the array is `'static` / erased / error, CBMC can read later slots back as
+    /// nondeterministic (failing traces that pass natively; DESIGN.md B17, B19).
+    #[inline]
+    pub fn lifetime(x: LifetimeData<VI>) -> &'static LifetimeData<VI> {
+        if unsafe { LT_NEXT } == 0 {
+            lifetime_raw(LifetimeData::Placeholder(PlaceholderIndex { ui: UniverseIndex::ROOT, idx: 0 }));
+        }
+        lifetime_raw(x)
+    }
     pub fn lt_slot(i: usize) -> Option<&'static LifetimeData<VI>> {
         unsafe { LT_ARENA[i].as_ref() }
     }
